@@ -70,6 +70,12 @@ def label_value(idx: int, size: int, entries: str, additive: bool):
         return idx * 1.25 + 0.5
     if entries == "complex":
         return complex(idx + 1, scramble(idx))
+    if entries == "nearherm":
+        # large entries that are symmetric up to a perturbation of a few units: np.allclose(X, X^T) holds (1e-5 relative) although X is
+        # not symmetric - added after seeded change C02-5 (a "Hermitian" fast path guarded by allclose rebuilt the lower triangle)
+        n = int(round(size ** 0.5))
+        r, c = divmod(idx, n)
+        return 10_000_000 + 1000 * (min(r, c) * n + max(r, c)) + (r * n + c) % 7
     if entries == "u8":  # narrow unsigned integers whose sums leave the dtype's range (added after seeded change C02-3)
         return 100 + (idx * 37) % 150
     if entries == "i8":
@@ -80,7 +86,7 @@ def label_value(idx: int, size: int, entries: str, additive: bool):
 
 
 _DTYPES = {"sym": object, "pow": object, "int": np.int64, "intB": np.int64, "float": np.float64, "complex": np.complex128,
-           "u8": np.uint8, "i8": np.int8, "bool": np.bool_}
+           "u8": np.uint8, "i8": np.int8, "bool": np.bool_, "nearherm": np.int64}
 
 
 def labelled(rows: int, cols: int, entries: str, additive: bool = False) -> np.ndarray:
